@@ -309,7 +309,9 @@ func drawSeq(rt *rapid.T, syms []sym) [][2]int {
 
 func drawScript(rt *rapid.T) sess.Script {
 	syms := symbols(true)
-	return build(drawSeq(rt, syms), syms)
+	sc := build(drawSeq(rt, syms), syms)
+	sess.DrawClock(rt, &sc, 5)
+	return sc
 }
 
 func minimize(sig string, cs []byte) []byte {
